@@ -37,6 +37,10 @@ def obligations(tier, seed):
     obs.append(dict(name='run/OP_ADD/args1.1/out/-q', kind='run', script='OP_ADD', args=[1, 1], mode='out', opts=['-q']))
     obs.append(dict(name='run/OP_ADD/args5.1/out/-q', kind='run', script='OP_ADD', args=[5, 1], mode='out', opts=['--quiet']))
     obs.append(dict(name='run/OP_1/dec-args', kind='run', script='OP_ADD', args=['d2', 'd1'], mode='out', opts=[]))
+    # line terminators of the script read from stdin (seed C08-4: only the first LF was cut off, a CR stayed on the script text)
+    for eol in ('crlf', 'cr', 'none', 'crcrlf'):
+        obs.append(dict(name='run/OP_ADD/args1.1/in/eol-%s' % eol, kind='run', script='OP_ADD', args=[1, 1], mode='in', opts=[], eol=eol))
+        obs.append(dict(name='run/OP_EQUALVERIFY OP_1/args1.1/both/eol-%s' % eol, kind='run', script='OP_EQUALVERIFY OP_1', args=[1, 1], mode='both', opts=[], eol=eol))
     # long items: the printed line grows with the item (a 520-byte item is a 1040-character line)
     for n in (75, 76, 255, 256, 511, 512, 520):
         obs.append(dict(name='run/long-item-%d/out' % n, kind='run', script='OP_NOP', args=[('L', n)], mode='out', opts=[]))
@@ -77,8 +81,10 @@ def build_args(ob, V=None):
     argv = [list(b'btcdeb')] + [list(o.encode()) for o in ob['opts']]
     stdin = None
     if ob['mode'] == 'out': tty = (1, 0, 1); argv += [sc_chars] + args
-    elif ob['mode'] == 'in': tty = (0, 1, 1); stdin = sc_chars + [10]; argv += args
-    else: tty = (0, 0, 1); stdin = sc_chars + [10]; argv += args
+    EOL = {'lf': [10], 'crlf': [13, 10], 'cr': [13], 'none': [], 'crcrlf': [13, 13, 10], 'lflf': [10, 10]}[ob.get('eol', 'lf')]          # how the script line on stdin ends
+    if ob['mode'] == 'out': pass
+    elif ob['mode'] == 'in': tty = (0, 1, 1); stdin = sc_chars + EOL; argv += args
+    else: tty = (0, 0, 1); stdin = sc_chars + EOL; argv += args
     inputs = dict(args=[[c for c in cs if is_sym(c)] if sym else cs for _, cs in arg_syms], sc=[cs for _, cs in sc_syms])
     return argv, tty, stdin, assume, toks, sc_syms, arg_syms, inputs
 
